@@ -704,7 +704,7 @@ func readTarget(p *core.Prog, s site) string {
 }
 
 // isTableTest: the fact tests errors.Is(err, tbl[i].f) for a local literal table.
-func isTableTest(f core.Fact) *tableRef {
+func isTableTest(p *core.Prog, f core.Fact) *tableRef {
 	if f.L == nil || f.L.Op != "call" || f.L.Name != "errors.Is" || len(f.L.Args) != 2 || f.L.Args[0].Op != "param" {
 		return nil
 	}
@@ -712,7 +712,7 @@ func isTableTest(f core.Fact) *tableRef {
 	if !ok || len(call.Call.Args) != 2 {
 		return nil
 	}
-	return structTableField(call.Call.Args[1])
+	return structTableField(p, call.Call.Args[1])
 }
 
 func c04AlertMap(p *core.Prog, r *core.Run, m *echModel) {
@@ -740,20 +740,21 @@ func c04AlertMap(p *core.Prog, r *core.Run, m *echModel) {
 			okD  bool
 			fs   []core.Fact
 			raw  ssa.Value
+			from *ssa.BasicBlock // where the value comes from (a φ edge), or nil: the call's block
 		}
 		var cases []acase
-		var expand func(v ssa.Value, fs []core.Fact, depth int)
-		expand = func(v ssa.Value, fs []core.Fact, depth int) {
+		var expand func(v ssa.Value, fs []core.Fact, depth int, from *ssa.BasicBlock)
+		expand = func(v ssa.Value, fs []core.Fact, depth int, from *ssa.BasicBlock) {
 			if ph, ok := v.(*ssa.Phi); ok && depth < 4 {
 				for i, e := range ph.Edges {
-					expand(e, append(append([]core.Fact{}, fs...), p.EdgeFacts(ph.Block().Preds[i], ph.Block())...), depth+1)
+					expand(e, append(append([]core.Fact{}, fs...), p.EdgeFacts(ph.Block().Preds[i], ph.Block())...), depth+1, ph.Block().Preds[i])
 				}
 				return
 			}
 			d, okD := p.X(v).ConstInt()
-			cases = append(cases, acase{d, okD, fs, v})
+			cases = append(cases, acase{d, okD, fs, v, from})
 		}
-		expand(s.Instr.Common().Args[2], p.Facts(s.Block()), 0)
+		expand(s.Instr.Common().Args[2], p.Facts(s.Block()), 0, nil)
 		for _, c := range cases {
 			desc, okD := c.desc, c.okD
 			var pos, negs []string
@@ -766,7 +767,7 @@ func c04AlertMap(p *core.Prog, r *core.Run, m *echModel) {
 					} else {
 						negs = append(negs, f.L.Args[1].Name)
 					}
-				} else if tr := isTableTest(f); tr != nil && f.Op == "true" {
+				} else if tr := isTableTest(p, f); tr != nil && f.Op == "true" {
 					tpos = append(tpos, tr)
 				}
 				if f.Op == "!=" && f.L.Op == "param" && f.R.Name == "nil" {
@@ -775,7 +776,7 @@ func c04AlertMap(p *core.Prog, r *core.Run, m *echModel) {
 			}
 			// table-driven form: `for _, a := range table { if errors.Is(err,
 			// a.target) { sendAlert(.., a.description) } }` stands for one case per row
-			if td := structTableField(c.raw); td != nil && !okD && len(pos) == 0 && len(tpos) == 1 && tpos[0].Alloc == td.Alloc && tpos[0].Index == td.Index {
+			if td := structTableField(p, c.raw); td != nil && !okD && len(pos) == 0 && len(tpos) == 1 && tpos[0].same(td) {
 				for k, row := range td.Rows {
 					name := "-"
 					if row[tpos[0].Field] != nil {
@@ -803,19 +804,34 @@ func c04AlertMap(p *core.Prog, r *core.Run, m *echModel) {
 			// the default after such a loop: every way round the loop is a failed
 			// test of that row's sentinel
 			if len(pos) == 0 && len(tpos) == 0 {
+				origin := s.Block()
+				if c.from != nil {
+					origin = c.from
+				}
 				for h, body := range core.Loops(conv) {
-					if body[s.Block()] || !h.Dominates(s.Block()) {
+					if body[origin] || !h.Dominates(origin) {
 						continue
 					}
 					var tr *tableRef
 					allBack := true
+					// the loop is left towards this case only when the table is exhausted
+					for b := range body {
+						for _, x := range b.Succs {
+							if body[x] || b == h {
+								continue
+							}
+							if x == origin || core.Reachable(x, nil)[origin] {
+								allBack = false
+							}
+						}
+					}
 					for _, pr := range h.Preds {
 						if !body[pr] {
 							continue
 						}
 						found := false
 						for _, f := range p.EdgeFacts(pr, h) {
-							if t := isTableTest(f); t != nil && f.Op == "false" && rangeLoopOver(h, t.Index) {
+							if t := isTableTest(p, f); t != nil && f.Op == "false" && rangeLoopOver(h, t.Index) {
 								found, tr = true, t
 							}
 						}
